@@ -30,7 +30,7 @@ def jobs(tier, seed):
     if not q:
         for v in (0, 1, 2):
             J.append(dict(entry='h_definite', args=[5, 4, 2, 0, v % 2, v], label=f'definite 5x4 across-origin variant={v}', cls='definite', reach=['form-built'], eager=False, witness=False))
-    for (nr, nt, nC) in ([(5, 4, 2), (7, 8, 3)] if q else [(5, 4, 2), (6, 4, 3), (7, 8, 3), (8, 8, 4), (9, 8, -1), (7, 12, 3)]):
+    for (nr, nt, nC) in ([(5, 4, 2), (7, 8, 3), (7, 12, 3)] if q else [(5, 4, 2), (6, 4, 3), (7, 8, 3), (8, 8, 4), (9, 8, -1), (7, 12, 3)]):
         for dirbc in (0, 1):
             for strat in (0, 1):
                 J.append(dict(entry='h_line_blocks', args=[nr, nt, nC, dirbc, strat], label=f'line blocks {nr}x{nt} nC={nC} dirbc={dirbc} strategy={strat}',
